@@ -2,7 +2,7 @@
    XpDefs.v that the correspondence check ties to XPath.cpp / XObject.cpp / Function*.cpp.
    Only statements, each closed by `exact` of a lemma of XpModel.v, and Print Assumptions. *)
 From Coq Require Import ZArith NArith List Bool Arith SpecFloat.
-Require Import XV.GenNum XV.NumDefs XV.XpAst XV.DomDefs XV.XpDefs XV.XpModel XV.DomModel.
+Require Import XV.GenNum XV.NumDefs XV.XpAst XV.DomDefs XV.XpDefs XV.XpModel XV.DomModel XV.DomDescModel.
 Import ListNotations.
 
 (* Every node-set value the interpreter delivers - for every expression, document, context and
@@ -45,6 +45,34 @@ Theorem child_axis_on_every_built_document : forall top p,
   siblings_after d (S (length d)) (first_child d p) = n_children (get d p).
 Proof. exact child_axis_on_built_documents. Qed.
 Print Assumptions child_axis_on_every_built_document.
+
+(* The descendant walk (XPath::findDescendants: first child, else next sibling, else climb to the
+   nearest ancestor below the start node that has a next sibling) lists exactly the pre-order
+   sequence of the subtree - subtree n = n :: concat (map subtree (children n)) - for any fuel that
+   covers the subtree; parents have smaller ids in every built document; and with the fuel the
+   interpreter passes, descendant-or-self on every built document is that duplicate-free list. *)
+Theorem subtree_is_the_preorder_recursion : forall d, wf d ->
+  (forall x p, parent_of d x = Some p -> p < x) -> forall n, n < length d ->
+  subtree d n = n :: flat_map (subtree d) (n_children (get d n)).
+Proof. exact subtree_unfold. Qed.
+Print Assumptions subtree_is_the_preorder_recursion.
+
+Theorem descendant_walk_is_preorder : forall d, wf d ->
+  (forall x p, parent_of d x = Some p -> p < x) -> forall n fuel,
+  n < length d -> length (subtree d n) <= fuel -> descend d fuel n n = subtree d n.
+Proof. exact descend_is_preorder. Qed.
+Print Assumptions descendant_walk_is_preorder.
+
+Theorem built_documents_number_parents_first : forall top x p,
+  parent_of (build_doc top) x = Some p -> p < x.
+Proof. exact build_doc_parent_lt. Qed.
+Print Assumptions built_documents_number_parents_first.
+
+Theorem descendant_axis_on_every_built_document : forall top n,
+  let d := build_doc top in
+  n < length d -> descendants_or_self d n = subtree d n /\ NoDup (subtree d n).
+Proof. exact descendants_on_built_documents. Qed.
+Print Assumptions descendant_axis_on_every_built_document.
 
 (* the value of a union is the sorted duplicate-free list of the operands' nodes: membership, and
    the laws that follow *)
